@@ -111,32 +111,32 @@ PROPS = {
     },
     "C05": {
         "props_file": "Props/C05.v",
-        "theorems": ["c05_start_respects_max", "c05_counter_dominates", "c05_pass_bound", "c05_no_double_increment", "c05_release_on_finish", "c05_release_on_delete", "c05_store_steps", "c05_rollback", "c05_recover"],
+        "theorems": ["c05_start_respects_max", "c05_counter_dominates", "c05_counter_exact_when_delivered", "c05_pass_bound", "c05_no_double_increment", "c05_release_on_finish", "c05_release_on_delete", "c05_store_steps", "c05_rollback", "c05_recover"],
         "families": [{"name": "queue", "n_quick": 300, "n_thorough": 8000}],
         "rule": QUEUE_RULE,
         "trusted": QUEUE_TRUSTED,
-        "assumptions": ["the independent reconciler is only invoked for Jobs without a JobConfig owner (the informer routes owned Jobs to the per-JobConfig queue): hypothesis run_ok of the history theorems", "'nothing is over-counted for ever' (the counter returns to the true count at quiescence) is judged by the monitor (signature counter-differs-at-quiescence), the theorems give the safety direction counter >= active", "a start write that is applied but reported as failed (timeout after apply) is not generated (F8 hypothesis, unconfirmed)"],
+        "assumptions": ["the independent reconciler is only invoked for Jobs without a JobConfig owner (the informer routes owned Jobs to the per-JobConfig queue): hypothesis run_ok of the history theorems", "exact accounting (c05_counter_exact_when_delivered) additionally assumes that Job names are unique (a create of an existing name fails) - hypothesis run_ok2", "a start write that is applied but reported as failed (timeout after apply) is not generated (F8 hypothesis, unconfirmed)"],
         "level_text": "Theorems over all histories (invariant Phi: active(API) <= counter + effect of the events the store has not seen, all pending effects <= 0; preserved by every op incl. failed and conflicting writes, rollback, restart): in every reachable world the counter is at least the number of owned active Jobs in the API, and whenever a pass starts a Forbid/Enqueue Job the owned active Jobs in the API just before number at most maxConcurrency-1. Per pass: every start of a Forbid/Enqueue Job is admitted at counter value a' with a'+1 <= maxConcurrency (snapshot = counter by CheckAndAdd); the store never counts the start twice, releases exactly once on finish/delete; rollback on a failed write; recount on restart. Model = whole PerConfigReconciler pass + Store + listeners, tied to the real code by the queue stream (lagging cache/listeners, faults, restarts); the bound against the API truth is judged by the monitor at every start.",
         "level_note": "Passes are atomic w.r.t. listener deliveries in the model (CAS failure branch not exercised).",
     },
     "C06": {
         "props_file": "Props/C06.v",
-        "theorems": ["c06_reject_only_forbid_at_limit", "c06_enqueue_never_refused", "c06_at_limit", "c06_allow_starts_regardless", "c06_fifo_monotone"],
+        "theorems": ["c06_reject_only_forbid_at_limit", "c06_enqueue_never_refused", "c06_at_limit", "c06_allow_starts_regardless", "c06_fifo_monotone", "c06_idle_pass_means_blocked"],
         "families": [{"name": "queue", "n_quick": 300, "n_thorough": 8000}],
         "rule": QUEUE_RULE,
         "trusted": QUEUE_TRUSTED,
         "assumptions": ["equal creation seconds among queued Jobs are not generated (sort.Slice is unstable; ties are unordered in the code)", "a refused Job whose AdmissionError phase has not been written yet is still listed as queued and may get a startTime when capacity frees; it never gets a task (C08 gate) - observation, not judged"],
-        "level_text": "Decision theorems for all inputs (refusal only for Forbid at the limit, Enqueue never refused and skipped at the limit, Allow/nil always start), FIFO monotonicity inside a pass; order of starts among Enqueue Jobs, refusals, and 'nothing startable left queued at quiescence' judged by the monitor on histories of the real reconciler.",
+        "level_text": "Decision theorems for all inputs (refusal only for Forbid at the limit, Enqueue never refused and skipped at the limit, Allow/nil always start), FIFO monotonicity inside a pass; 'no Job stays stuck' as a theorem over histories: over a fully delivered history an idle pass leaves only Enqueue Jobs blocked by the true number of active Jobs in the API or Jobs whose startAfter is in the future (exact counter accounting, QueueEqP); order of starts among Enqueue Jobs across passes and refusals judged by the monitor on histories of the real reconciler.",
         "level_note": "Trusted: as C05.",
     },
     "C07": {
         "props_file": "Props/C07.v",
-        "theorems": ["c07_never_before", "c07_pass_never_before", "c07_independent_never_before", "c07_armed_when_waiting", "c07_independent_immediate"],
+        "theorems": ["c07_never_before", "c07_pass_never_before", "c07_independent_never_before", "c07_armed_when_waiting", "c07_independent_immediate", "c07_due_job_left_only_at_true_limit"],
         "families": [{"name": "queue", "n_quick": 300, "n_thorough": 8000}],
         "rule": QUEUE_RULE,
         "trusted": QUEUE_TRUSTED,
         "assumptions": ["'eventually' is 'at quiescence' (no real-time bound): judged by the monitor after driving the history to quiescence with the clock past every startAfter"],
-        "level_text": "Theorems: a start decision implies clock >= startAfter for both reconcilers; a not-yet-due independent Job arms a re-sync; a due independent Job is started by the pass that sees it. Eventual start judged at quiescence by the monitor.",
+        "level_text": "Theorems: a start decision implies clock >= startAfter for both reconcilers; a not-yet-due independent Job arms a re-sync; a due independent Job is started by the pass that sees it; over a fully delivered history an idle pass leaves a due Job queued only if it is an Enqueue Job at the true concurrency limit. Eventual start at quiescence is additionally judged by the monitor.",
         "level_note": "Trusted: as C05.",
     },
     "C08": {
